@@ -5,6 +5,9 @@ import Mathlib.Algebra.CharZero.Defs
 import Mathlib.Data.Nat.Cast.Basic
 import Mathlib.Tactic.FieldSimp
 import Mathlib.Tactic.Ring
+import Mathlib.Tactic.Linarith
+import Mathlib.Tactic.Push
+import Mathlib.Algebra.Order.Field.Rat
 
 /-!
   C12 — TDMS timestamp arithmetic: headline theorems.
@@ -261,6 +264,64 @@ theorem time_track_one' {K : Type} [Field K] (off inc : K) (i : ℕ) :
 theorem time_track_last {K : Type} [Field K] [CharZero K] (off inc : K) (n : ℕ) (hn : 2 ≤ n) :
     linspace off (off + ((n : K) - 1) * inc) n (n - 1) = off + ((n : K) - 1) * inc := by
   rw [time_track off inc n (n - 1) hn, Nat.cast_sub (by omega), Nat.cast_one]
+
+/-! ## 6b. Absolute time track: `wf_start_time` plus THOSE offsets at the requested accuracy -/
+
+/-- The source of `TdmsChannel.time_track` still has the shape that `absTrack` models: one relative track, scaled by the unit table
+    and converted as a whole; the start time is only looked up (and, for a raw timestamp, converted at the accuracy). -/
+theorem time_track_source_tied :
+    Tdms.Generated.timeTrackRelativeExpr = "np.linspace(offset, offset + (len(self) - 1) * increment, len(self))" ∧
+    Tdms.Generated.timeTrackAbsoluteExpr = "start_time + (relative_time * unit_correction).astype(time_type)" ∧
+    Tdms.Generated.timeTrackDeltaType = "'timedelta64[{0}]'.format(accuracy)" ∧
+    Tdms.Generated.timeTrackUnits = [("s", 1), ("ms", 10^3), ("us", 10^6), ("ns", 10^9)] ∧
+    Tdms.Generated.timeTrackStatements =
+      ["relative_time = np.linspace(offset, offset + (len(self) - 1) * increment, len(self))",
+       "start_time = self.properties['wf_start_time']",
+       "start_time = start_time.as_datetime64(accuracy)"] := by
+  refine ⟨rfl, rfl, rfl, by decide, rfl⟩
+
+/-- Truncation toward zero moves a value by less than one unit. -/
+theorem truncRat_close (x : ℚ) : |((truncRat x : ℤ) : ℚ) - x| < 1 := by
+  unfold truncRat
+  split
+  · have h1 := Rat.floor_le x
+    have h2 := Rat.lt_floor_add_one x
+    rw [abs_lt]; push_cast at h2 ⊢; constructor <;> linarith
+  · have h1 : x ≤ ((x.ceil : ℤ) : ℚ) := Rat.le_ceil
+    have h2 : ((x.ceil : ℤ) : ℚ) < x + 1 := by
+      have e := Rat.ceil_eq_neg_floor_neg x
+      have h3 := Rat.lt_floor_add_one (-x)
+      rw [e]; push_cast at h3 ⊢; linarith
+    rw [abs_lt]; constructor <;> linarith
+
+/-- Every sample of the absolute track lies less than one unit of the accuracy from the relative time of that sample, measured
+    from the start instant: `|(abs[i] − start) − rel[i]·R| < 1`, for every start, accuracy and relative time. -/
+theorem absolute_track_within_one_unit (s : ℤ) (R : ℕ) (rel : ℚ) :
+    |(((absTrack s R rel - s : ℤ)) : ℚ) - rel * (R : ℚ)| < 1 := by
+  have h := truncRat_close (rel * (R : ℚ))
+  have e : absTrack s R rel - s = truncRat (rel * (R : ℚ)) := by unfold absTrack; omega
+  rw [e]; exact h
+
+/-- A relative time that is a whole number of units is added exactly. -/
+theorem absolute_track_exact_on_whole_units (s k : ℤ) (R : ℕ) (rel : ℚ) (h : rel * (R : ℚ) = (k : ℚ)) :
+    absTrack s R rel = s + k := by
+  unfold absTrack truncRat
+  rw [h]
+  split
+  · rw [Rat.floor_intCast]
+  · rw [Rat.ceil_intCast]
+
+/-- With the relative track of `time_track`, sample `i` of a channel with `n ≥ 2` samples is the start instant plus
+    `(off + i·inc)·R` truncated: the composition of `time_track` (over ℚ) and `absTrack`. -/
+theorem absolute_track_of_linspace (s : ℤ) (R : ℕ) (off inc : ℚ) (n i : ℕ) (hn : 2 ≤ n) :
+    absTrack s R (linspace off (off + ((n : ℚ) - 1) * inc) n i) = s + truncRat ((off + (i : ℚ) * inc) * (R : ℚ)) := by
+  rw [time_track off inc n i hn]; rfl
+
+/-- Converting the start offset and the sample offsets separately is a different function: half a second offset, half a second
+    increment, accuracy one second, sample 1 (exactly one second after the start) would be reported at the start. -/
+theorem split_conversion_differs :
+    absTrackSplit 0 1 (1/2) (1/2) 1 = 0 ∧ absTrack 0 1 ((1/2 : ℚ) + 1 * (1/2)) = 1 := by
+  decide +kernel
 
 /-! ## 7. Non-vacuity and concrete values -/
 
